@@ -295,6 +295,22 @@ Section Acc.
     | Some (Ipv4FlowSpec | Ipv6FlowSpec) => Ok NhEmpty
     | None => Err
     end.
+  (* the octets of a next hop, and the forms NextHop::parse accepts for a family *)
+  Definition nh_octets (nh : nexthop) : bytes :=
+    match nh with NhUni a => a | NhLL a c => a ++ c | NhVpn rd a => rd ++ a | NhEmpty => [] end.
+  Definition nh_fits (k : famkind) (nh : nexthop) : bool :=
+    match k, nh with
+    | (Ipv4Unicast | Ipv4Multicast | Ipv4RouteTarget | L2VpnVpls | L2VpnEvpn), NhUni a => Nat.eqb (length a) 4
+    | Ipv6Unicast, NhUni a => Nat.eqb (length a) 16
+    | Ipv6Unicast, NhLL a c => Nat.eqb (length a) 16 && Nat.eqb (length c) 16
+    | Ipv6Multicast, NhUni a => Nat.eqb (length a) 16
+    | (Ipv4MplsUnicast | Ipv6MplsUnicast), NhUni a => Nat.eqb (length a) 4 || Nat.eqb (length a) 16
+    | Ipv4MplsVpnUnicast, NhVpn rd a => Nat.eqb (length rd) 8 && Nat.eqb (length a) 4
+    | Ipv6MplsVpnUnicast, NhVpn rd a => Nat.eqb (length rd) 8 && Nat.eqb (length a) 16
+    | (Ipv4FlowSpec | Ipv6FlowSpec), NhEmpty => true
+    | _, _ => false
+    end.
+
   Definition a_mp_next_hop : res (option ((N * N) * nexthop)) :=
     match find_unchecked a_unchecked 14 with
     | None => Ok None
@@ -304,6 +320,29 @@ Section Acc.
       let* nh := nh_parse fam p in Ok (Some (fam, nh))
     end.
   Definition a_conventional_next_hop : res (option N) := a_u32 3.
+
+  (* UpdateMessage::find_next_hop(afi_safi): for IPv4 unicast the MP_REACH next hop when that attribute is for IPv4 unicast, else
+     the NEXT_HOP attribute; for every other family the MP_REACH next hop, which must be for that family *)
+  Inductive found_nh := FConv (a : N) | FMp (nh : nexthop).
+  Definition fam_eq (x y : N * N) : bool := (fst x =? fst y) && (snd x =? snd y).
+  Definition a_find_next_hop (fam : N * N) : res found_nh :=
+    let conv := match a_conventional_next_hop with Ok (Some a) => Ok (FConv a) | Panic => Panic | _ => Err end in
+    if fam_eq fam (1, 1) then
+      match a_mp_next_hop with
+      | Panic => Panic
+      | Ok (Some (f, nh)) => if fam_eq f (1, 1) then Ok (FMp nh) else conv
+      | _ => conv
+      end
+    else
+      match a_mp_next_hop with
+      | Panic => Panic
+      | Ok (Some (f, nh)) => if fam_eq f fam then Ok (FMp nh) else Err
+      | _ => Err
+      end.
+
+  (* has_conventional_nlri / has_mp_nlri *)
+  Definition a_has_conventional_nlri : bool := negb (Nat.eqb (range_len (u_ann u)) 0).
+  Definition a_has_mp_nlri : bool := existsb (fun e => snd (fst e) =? 14) a_unchecked.
 
   (* PaMap::from_update_pdu: every attribute except MP_REACH / MP_UNREACH, keyed by type code
      (BTreeMap: ascending; of a repeated type code the first occurrence is kept) *)
